@@ -516,7 +516,7 @@ def _no_np(ops):
     """Without the numpy-integer ID: `np.int64(3) == (1, 'e')` broadcasts to an array, so plain `==` / `in` between a numpy
     scalar ID and a tuple ID is not a truth value - in this oracle's own list comparisons as anywhere else.  Numpy IDs are
     exercised by C01-C05 and C07, whose oracles compare through dictionaries."""
-    return [o for o in ops if "NP3" not in o and "np." not in o]
+    return [o for o in ops if "NP3" not in o and "np." not in o and "NP127" not in o and "BIGF" not in o]  # BIGF: pandas renders 1e16 and 1e16 + 1 alike
 
 
 def _structural(ops):
